@@ -333,24 +333,19 @@ def check_fidelity(spec, root, v):
     except Exception:
         return [], ["fidelity-skipped"]
     have = Counter(tree_leaves(root))
-    per_type_want = Counter()
-    per_type_have = Counter()
-    for (t, _x), n in want.items():
-        per_type_want[t] += n
-    for (t, _x), n in have.items():
-        per_type_have[t] += n
+    want_distinct = Counter(t for (t, _x) in want)
+    have_distinct = Counter(t for (t, _x) in have)
     out, notes = [], []
-    for (t, x), n in want.items():
-        if have.get((t, x), 0) >= n:
+    for (t, x) in want:
+        if (t, x) in have:
             continue
-        if per_type_have[t] < per_type_want[t]:
+        if have_distinct[t] < want_distinct[t]:
             notes.append("field-left-out-by-writer")     # not judged here (C01)
             continue
         out.append(("%s|fidelity|%s|value-given-is-not-the-value-emitted" % (PID, L.TYPE_NAMES[t]),
-                    "%s: %s leaf %r given %d time(s), emitted %d time(s); emitted leaves of that "
-                    "type: %r" % (spec["cls"], L.TYPE_NAMES[t], x if t != L.BYTES else x.hex(), n,
-                                  have.get((t, x), 0),
-                                  [k[1] if t != L.BYTES else k[1].hex() for k in have if k[0] == t][:6])))
+                    "%s: %s leaf %r given but not emitted; emitted leaves of that type: %r"
+                    % (spec["cls"], L.TYPE_NAMES[t], x if t != L.BYTES else x.hex(),
+                       [k[1] if t != L.BYTES else k[1].hex() for k in have if k[0] == t][:6])))
     return out, notes
 
 
